@@ -642,7 +642,7 @@ Proof.
   set (dt := fun t => match t with TScalar p => default_scalar p | TMsg j0 => default_msg Dd sc j0 end).
   pose proof (schema_ok_fields sc j fs Hs En) as Hok. pose proof (schema_ok_tags sc j fs Hs En) as Htags.
   assert (Hnd : nodupZ (flat_map field_tags fs) = true).
-  { unfold schema_ok in Hs. rewrite forallb_forall in Hs. pose proof (nth_error_In _ _ En) as Hin. specialize (Hs fs Hin).
+  { unfold schema_ok in Hs. apply andb_prop in Hs. apply proj1 in Hs. rewrite forallb_forall in Hs. pose proof (nth_error_In _ _ En) as Hin. specialize (Hs fs Hin).
     unfold msgdesc_ok in Hs. apply andb_prop in Hs. tauto. }
   apply (fields_rt edv sc Hs dv dm c ltac:(lia) ltac:(lia)
            (fun j0 e Dd0 c' H1 H2 H3 H4 H5 => ksteps_steps _ _ _ _ _ _ _ (IH j0 e dm c' Dd0 H1 H2 H3 ltac:(lia) H4 H5)) dt) with (pre_f := []) (pre_x := []); auto.
